@@ -65,6 +65,14 @@ pub struct HostileStats {
     pub max_peak: isize,
 }
 
+/// "A machine that passes validation" is judged by the validation contract, not only by calling the
+/// validator the parser itself relies on: the machine returned for a hostile string must satisfy the
+/// independent well-formedness predicate (C12's) and must be able to drive a framework without panicking.
+fn accepted_is_sound(m: &Machine, parser: &str) -> Result<(), String> {
+    super::c12::wellformed(m).map_err(|e| format!("{parser} returned a machine that is not well-formed although validate() accepts it: {e}"))?;
+    super::c12::drive(m).map_err(|e| format!("{parser} returned a machine that {e}"))
+}
+
 /// Oracle for one arbitrary string through the current parser.
 pub fn judge_hostile(s: &str, st: &mut HostileStats) -> Result<(), String> {
     st.inputs += 1;
@@ -90,6 +98,7 @@ pub fn judge_hostile(s: &str, st: &mut HostileStats) -> Result<(), String> {
                 Ok(Err(e)) => return Err(format!("Machine::from_str returned a machine that does not pass validation: {}", e)),
                 Err(_) => return Err("validate() panicked on a parsed machine".into()),
             }
+            accepted_is_sound(&m, "Machine::from_str")?;
         }
     }
     if peak > mem_bound(s.len()) {
@@ -112,7 +121,7 @@ pub fn judge_hostile_v1(s: &str, st: &mut HostileStats) -> Result<(), String> {
             st.ok += 1;
             *st.classes.entry("v1:Ok".into()).or_insert(0) += 1;
             match m.validate() {
-                Ok(()) => Ok(()),
+                Ok(()) => accepted_is_sound(&m, "parse_v1_machine"),
                 Err(e) => Err(format!("parse_v1_machine returned a machine that does not pass validation: {}", e)),
             }
         }
@@ -748,6 +757,18 @@ pub fn worker(ctx: &WorkerCtx) -> WorkerOut {
                 crate::supervise::beat();
             }
         });
+        // well-formed encodings of machines that must not be accepted: every C12 candidate (numeric corners in every
+        // slot, out-of-range and duplicate targets, empty state list), encoded by the harness without validation
+        for cnd in super::c12::candidates(q) {
+            let Ok(s) = std::panic::catch_unwind(std::panic::AssertUnwindSafe(|| cnd.m.serialize())) else { continue };
+            *kinds.entry("encoded-candidate-machine".to_string()).or_insert(0) += 1;
+            if let Err(e) = judge_hostile(&s, &mut st) {
+                fails.push((format!("encoding of a candidate machine ({})", cnd.label), s, e));
+            }
+            if st.inputs % 2048 == 0 {
+                crate::supervise::beat();
+            }
+        }
         v1_inputs(q, &mut |kind, s| {
             *kinds.entry(kind.to_string()).or_insert(0) += 1;
             if let Err(e) = judge_hostile_v1(&s, &mut st) {
